@@ -46,6 +46,9 @@ WATCHED = {"compile", "exec", "builtins.input", "os.system", "subprocess.Popen",
 BLOCKED = {"os.system", "subprocess.Popen", "urllib.Request", "os.exec", "os.posix_spawn", "os.spawn", "os.fork"}
 
 _ST = {"armed": False, "busy": False, "events": [], "installed": False, "texts": ()}
+RUN_SECONDS = 3.0
+CORR_SECONDS = 30.0   # correspondence cases are small; this only matters on an overloaded machine
+MAX_EVENTS = 20000   # per run; a program that loops on input()/print keeps only the first ones
 IN_SCOPE_FUNCTIONS = {"vy_eval", "function_call", "exp2_or_eval", "get_input"}
 _AST_FILE = os.path.normcase(os.path.realpath(ast.__file__))
 
@@ -54,13 +57,43 @@ class Blocked(RuntimeError):
     pass
 
 
+class HardTimeout(BaseException):
+    """raised by the run's own repeating alarm: not an Exception, so neither execute_vyxal's
+    `except Exception` nor get_input's can swallow it (the framework's one-shot Timeout can be)"""
+
+
+def _hard_alarm(signum, frame):
+    if _ST.get("deadline"):
+        raise HardTimeout()
+
+
+def with_deadline(seconds, fn, *args, **kw):
+    """fn(*args) under a repeating SIGALRM; returns (timed_out, result)"""
+    import signal
+    old = signal.signal(signal.SIGALRM, _hard_alarm)
+    _ST["deadline"] = True
+    signal.setitimer(signal.ITIMER_REAL, seconds, 0.25)
+    try:
+        return False, fn(*args, **kw)
+    except HardTimeout:
+        _ST["deadline"] = False
+        return True, None
+    finally:
+        _ST["deadline"] = False
+        signal.setitimer(signal.ITIMER_REAL, 0)
+        signal.signal(signal.SIGALRM, old)
+
+
 def _hook(event, args):
     st = _ST
     if not st["armed"] or st["busy"] or event not in WATCHED:
         return
+    ev = st["events"]
+    if len(ev) >= MAX_EVENTS and event not in BLOCKED:
+        st["dropped"] = st.get("dropped", 0) + 1
+        return
     st["busy"] = True
     try:
-        ev = st["events"]
         if event == "compile":
             src = args[0]
             f1 = sys._getframe(1)
@@ -129,7 +162,7 @@ class RecDict(dict):
 
     def __setitem__(self, k, v):
         old = self.get(k, "")
-        if _ST["armed"]:
+        if _ST["armed"] and len(_ST["events"]) < MAX_EVENTS:
             _ST["events"].append(("out", k, v[len(old):] if isinstance(v, str) and isinstance(old, str) and v.startswith(old) else v))
         dict.__setitem__(self, k, v)
 
@@ -186,7 +219,7 @@ def run_impl(prog, inputs, flags, online, count_prints=False, texts=()):
     real_print = builtins.print
 
     def counting_print(*a, **k):
-        if _ST["armed"] and k.get("file") is None:
+        if _ST["armed"] and k.get("file") is None and len(_ST["events"]) < MAX_EVENTS:
             _ST["events"].append(("print",))
         return real_print(*a, **k)
 
@@ -201,7 +234,7 @@ def run_impl(prog, inputs, flags, online, count_prints=False, texts=()):
                 M.execute_vyxal(prog, flags + "e", list(inputs))
     except SystemExit:
         err = "SystemExit"
-    except V.Timeout:
+    except (V.Timeout, HardTimeout):
         _ST["armed"] = False
         builtins.print = real_print
         raise
@@ -337,15 +370,21 @@ def oracle_case(case):
         limit_memory()
     prog, inputs, flags = case["prog"], case["inputs"], case["flags"]
     texts = list(case.get("texts", [])) + list(inputs)
-    rec = run_impl(prog, inputs, flags, True, texts=texts)
+    timed_out, rec = with_deadline(RUN_SECONDS, run_impl, prog, inputs, flags, True, texts=texts)
+    if timed_out:
+        return {"bad": [], "err": "timeout", "where": None, "ninput": 0, "nev": {}, "out1": "", "out2": False, "diff": None}
     bad, ninput = judge(rec, texts, flags, case.get("raises"), case.get("out1"))
     diff = None
-    if case.get("diff") and rec["err"] is None:
-        off = run_impl(prog, inputs, flags, False)
-        if off["err"] is None:
-            diff = off["host"] == rec["out1"]
-            if not diff:
-                bad.append(("C19:output-record", f"offline stdout {off['host'][:60]!r} but online_output[1] {rec['out1'][:60]!r}"))
+    if case.get("diff") and rec["err"] is None and len(rec["events"]) < MAX_EVENTS:
+        # every print(...) of the offline run must be a write to the record online
+        timed_out, off = with_deadline(RUN_SECONDS, run_impl, prog, inputs, flags, False, count_prints=True)
+        if not timed_out and off["err"] is None and len(off["events"]) < MAX_EVENTS:
+            n_off = sum(1 for e in off["events"] if e[0] == "print")
+            n_on = sum(1 for e in rec["events"] if e[0] == "out" and e[1] == 1)
+            diff = "same-text" if off["host"] == rec["out1"] else "same-count"
+            if n_off != n_on:
+                diff = "differs"
+                bad.append(("C19:output-record", f"offline run makes {n_off} print() calls ({off['host'][:50]!r}) but the online run makes {n_on} writes to online_output[1] ({rec['out1'][:50]!r})"))
     nev = {}
     for e in rec["events"]:
         k = e[0] + ("-parse" if e[0] == "compile" and e[2] else "")
@@ -497,12 +536,12 @@ def oracle(env):
     V.import_repo()
     import vyxal.main  # noqa: F401  (imported before forking)
     fixed = fixed_cases()
-    rnd = random_cases(env.rng, env.budget(700, 6000))
-    dif = random_cases(env.rng, env.budget(250, 2500), diff=True)
+    rnd = random_cases(env.rng, env.budget(2400, 14000))
+    dif = random_cases(env.rng, env.budget(700, 4000), diff=True)
     for c in fixed[:40]:
         c["diff"] = "c" not in c["flags"] and "h" not in c["flags"]
     cases = fixed + rnd + dif
-    res = V.pmap(oracle_case, cases, timeout=4, procs=min(V.NPROC, 8))
+    res = V.pmap(oracle_case, cases, timeout=4 * RUN_SECONDS, procs=min(V.NPROC, 8))
     stats = {"ok": 0, "timeout": 0, "exc": 0, "raised_recorded": 0, "finished": 0, "f14": 0, "host_input_reads": 0,
              "diff_compared": 0}
     nev = {}
@@ -514,9 +553,15 @@ def oracle(env):
         if st == "timeout":
             stats["timeout"] += 1
             continue
+        if st == "exc" and "HardTimeout" in str(r):
+            stats["timeout"] += 1
+            continue
         if st == "exc":
             stats["exc"] += 1
             env.fail(inp, f"harness could not observe the run: {r}", cls="C19:harness")
+            continue
+        if r["err"] == "timeout":
+            stats["timeout"] += 1
             continue
         stats["ok"] += 1
         for k, v in r["nev"].items():
@@ -528,6 +573,7 @@ def oracle(env):
             stats["finished"] += 1
         if r["diff"] is not None:
             stats["diff_compared"] += 1
+            stats["diff_" + r["diff"]] = stats.get("diff_" + r["diff"], 0) + 1
         for cls, what in r["bad"]:
             if cls.startswith("NOTE:"):
                 if len(sympy_notes) < 6:
@@ -682,6 +728,11 @@ def benign_texts(rng, n):
 
 
 def corr_eval_case(item):
+    timed_out, r = with_deadline(CORR_SECONDS, _corr_eval_case, item)
+    return None if timed_out else r
+
+
+def _corr_eval_case(item):
     V.import_repo()
     text, online = item
     from vyxal.context import Context
@@ -748,6 +799,11 @@ def gen_pval(rng, d):
 
 
 def corr_print_case(item):
+    timed_out, r = with_deadline(CORR_SECONDS, _corr_print_case, item)
+    return None if timed_out else r
+
+
+def _corr_print_case(item):
     V.import_repo()
     tree, online, end = item
     import sympy
@@ -787,6 +843,11 @@ def corr_print_case(item):
 
 
 def corr_call_case(item):
+    timed_out, r = with_deadline(CORR_SECONDS, _corr_call_case, item)
+    return None if timed_out else r
+
+
+def _corr_call_case(item):
     V.import_repo()
     which, top, online = item
     from vyxal.context import Context
@@ -879,6 +940,11 @@ def scenario_coq(sc):
 
 
 def corr_exec_case(item):
+    timed_out, r = with_deadline(CORR_SECONDS, _corr_exec_case, item)
+    return None if timed_out else r
+
+
+def _corr_exec_case(item):
     V.import_repo()
     sc, online = item
     texts = list(sc["inputs"])
@@ -893,12 +959,16 @@ def correspondence(env):
     import vyxal.main  # noqa: F401
     rng = env.rng
     procs = min(V.NPROC, 8)
+    skipped = {}
     # 1. vy_eval
-    texts = benign_texts(rng, env.budget(260, 1500)) + LITERALS[:6] + ["1+1", "max(1, 2)", "abc", "1 +"]
+    texts = benign_texts(rng, env.budget(500, 2500)) + LITERALS[:6] + ["1+1", "max(1, 2)", "abc", "1 +"]
     items = [(t, o) for t in texts for o in (True, False)]
-    res = V.pmap(corr_eval_case, items, timeout=5, procs=procs)
+    res = V.pmap(corr_eval_case, items, timeout=4 * CORR_SECONDS, procs=procs)
     cases, meta = [], []
     for (t, o), (st, r) in zip(items, res):
+        if st == "timeout" or (st == "ok" and r is None):
+            skipped["vy_eval"] = skipped.get("vy_eval", 0) + 1
+            continue
         if st != "ok":
             env.proof_broken("vy_eval correspondence case did not run", f"{t!r} online={o}: {st} {r}")
             continue
@@ -926,12 +996,15 @@ def correspondence(env):
     # 2. vy_print / LazyList.output
     trees = [("S", 0), ("L",), ("F", ("S", 1)), ("Z", [], []), ("Z", [("S", 0)], []), ("Z", [], [("S", 0)]),
              ("Z", [("S", 0)], [("S", 1)]), ("Z", [("S", 0), ("L",)], [("F", ("S", 2)), ("Z", [], [("S", 1)])])]
-    trees += [gen_pval(rng, 3) for _ in range(env.budget(150, 900))]
+    trees += [gen_pval(rng, 3) for _ in range(env.budget(350, 1800))]
     items = [(t, o, e) for t in trees for o in (True, False) for e in ("\n",) + (("",) if rng.random() < 0.3 else ())]
-    res = V.pmap(corr_print_case, items, timeout=5, procs=procs)
+    res = V.pmap(corr_print_case, items, timeout=4 * CORR_SECONDS, procs=procs)
     cases, meta = [], []
     texts_by_tree = {}
     for (t, o, e), (st, r) in zip(items, res):
+        if st == "timeout" or (st == "ok" and r is None):
+            skipped["vy_print"] = skipped.get("vy_print", 0) + 1
+            continue
         if st != "ok":
             env.proof_broken("vy_print correspondence case did not run", f"{t!r}: {st} {r}")
             continue
@@ -971,9 +1044,12 @@ def correspondence(env):
             items.append(("vyexec", top, o))
         for top in (2, 4):
             items.append(("vyexec", top, o))
-    res = V.pmap(corr_call_case, items, timeout=5, procs=procs)
+    res = V.pmap(corr_call_case, items, timeout=4 * CORR_SECONDS, procs=procs)
     cases, meta = [], []
     for (w, top, o), (st, r) in zip(items, res):
+        if st == "timeout" or (st == "ok" and r is None):
+            skipped["call"] = skipped.get("call", 0) + 1
+            continue
         if st != "ok":
             env.proof_broken("function_call/vy_exec correspondence case did not run", f"{w} {top!r}: {st} {r}")
             continue
@@ -992,11 +1068,14 @@ def correspondence(env):
     env.count(len(cases), (f"call:{m['function']}:{m['top']!r}:{m['online']}" for m in meta))
 
     # 4. execute_vyxal scenarios
-    scs = [gen_scenario(rng) for _ in range(env.budget(220, 1500))]
+    scs = [gen_scenario(rng) for _ in range(env.budget(450, 2400))]
     items = [(s, o) for s in scs for o in (True, False)]
-    res = V.pmap(corr_exec_case, items, timeout=8, procs=procs)
+    res = V.pmap(corr_exec_case, items, timeout=4 * CORR_SECONDS, procs=procs)
     cases, meta = [], []
     for (s, o), (st, r) in zip(items, res):
+        if st == "timeout" or (st == "ok" and r is None):
+            skipped["execute_vyxal"] = skipped.get("execute_vyxal", 0) + 1
+            continue
         if st != "ok":
             env.proof_broken("execute_vyxal correspondence case did not run", f"{s['prog']!r} online={o}: {st} {r}")
             continue
@@ -1016,6 +1095,9 @@ def correspondence(env):
              "final_print_raises": sum(s["final"][1] == "None" and not s["raises"] and s["transpile_ok"] for s in scs),
              "with_flag_c": sum("c" in s["flags"] for s in scs), "all_strings": sum("Ṡ" in s["flags"] for s in scs), "scenarios": len(scs)}
     env.note("execute_vyxal_scenarios", kinds)
+    env.note("correspondence_cases_skipped_on_timeout", skipped)
+    if sum(skipped.values()) > 0.2 * max(1, len(items)):
+        env.proof_broken("correspondence could not be evaluated: too many cases timed out", str(skipped))
     if meta:
         env.sample({"execute_vyxal_case": meta[len(meta) // 2]})
 
